@@ -336,6 +336,9 @@ fn rand_hint(rng: &mut Rng, ctx: &Ctx) -> u64 {
     }
 }
 
+/// the big-cluster layout of `bulk_op` is only generated while this is set (mode `bulk`)
+static BIG_LAYOUT_OK: std::sync::atomic::AtomicBool = std::sync::atomic::AtomicBool::new(false);
+
 fn bulk_op(rng: &mut Rng, ctx: &Ctx, fam: &Fam, kind: &str, n: usize, with_edges: bool) -> Vec<String> {
     let tag = ctx.tri.tag();
     let mut pts: Vec<(f64, f64)> = Vec::new();
@@ -393,7 +396,12 @@ fn bulk_op(rng: &mut Rng, ctx: &Ctx, fam: &Fam, kind: &str, n: usize, with_edges
             *q = (a, b);
         }
     }
-    else if rng.chance(4) && matches!(fam.name.as_str(), "cluster" | "neardeg" | "magn" | "scaled" | "wide") {
+    else if rng.chance(4)
+        && BIG_LAYOUT_OK.load(std::sync::atomic::Ordering::Relaxed)
+        && matches!(fam.name.as_str(), "cluster" | "neardeg" | "magn" | "scaled" | "wide")
+    {
+        // (bulk mode only: its histories end after the loads; in the longer dt histories every
+        // later step would be judged on a 400-vertex state, minutes per history)
         // (only under the near-degenerate float families: the model comparisons of the integer
         // families assume small integer coordinates, and tight clusters are the regime of findings
         // K1 / K13 / K14, whose signatures name these families)
@@ -1268,7 +1276,9 @@ pub fn history(mode: &str, idx: u64, rng: &mut Rng, thorough: bool, timeout_ms: 
             let mut ctx = Ctx::new(&scalar, kind, &hint, timeout_ms);
             ctx.header(idx, &scalar, &hint, mode, &fam.label());
             let n = len(rng, 0, 24) as usize;
+            BIG_LAYOUT_OK.store(true, std::sync::atomic::Ordering::Relaxed);
             let t = bulk_op(rng, &ctx, &fam, "plain", n, cdt);
+            BIG_LAYOUT_OK.store(false, std::sync::atomic::Ordering::Relaxed);
             let kinds: &[&str] = if cdt { &["cdt", "cdtstable", "plain"] } else { &["plain", "stable"] };
             for k in kinds {
                 let mut t2 = t.clone();
